@@ -1276,6 +1276,80 @@ fn empty_value_stage(ctx: &Ctx, all_paths: &[Vec<Vec<u8>>]) -> u64 {
     n
 }
 
+/// One view OBJECT used for several operations in a row (a contract's `deps.storage` is one object
+/// for a whole call): every sequence of up to 3 operations {set k v (the value already there),
+/// set k w, set j x, remove k} followed by reads of k and j and a scan, all through the same
+/// mutable view; the view's answers and the raw store afterwards are those of the window.
+fn reused_view_stage(ctx: &Ctx, all_paths: &[Vec<Vec<u8>>]) -> u64 {
+    let ops: [(&str, &[u8], Option<&[u8]>); 4] = [("set k v (unchanged)", b"k", Some(b"v")), ("set k w", b"k", Some(b"w")), ("set j x", b"j", Some(b"x")), ("remove k", b"k", None)];
+    let mut seqs: Vec<Vec<usize>> = vec![];
+    let mut layer: Vec<Vec<usize>> = vec![vec![]];
+    for _ in 0..3 {
+        let mut next = vec![];
+        for sq in &layer {
+            for i in 0..ops.len() {
+                let mut x = sq.clone();
+                x.push(i);
+                next.push(x);
+            }
+        }
+        seqs.extend(next.iter().cloned());
+        layer = next;
+    }
+    let mut n = 0u64;
+    for path in all_paths.iter().filter(|p| !p.is_empty() && p.iter().all(|s| s.len() < 300)) {
+        let prefix = enc_path(path);
+        for multi in [false, true] {
+            if !multi && path.len() != 1 {
+                continue;
+            }
+            for sq in &seqs {
+                n += 1;
+                let key = |k: &[u8]| { let mut r = prefix.clone(); r.extend_from_slice(k); r };
+                let mut base = Map::new();
+                base.insert(key(b"k"), b"v".to_vec());
+                base.insert(b"\x00outside".to_vec(), b"o".to_vec());
+                let mut model = base.clone();
+                let mut app = app_with(&base);
+                let case = json!({"engine": "kv-prefix", "stage": "one-view-object", "path": path_json(path), "multi": multi, "operations": sq.iter().map(|i| ops[*i].0).collect::<Vec<_>>()});
+                let r = catch(|| {
+                    let mut problems: Vec<String> = vec![];
+                    let mut v = view_mut(&mut app, path, multi);
+                    for i in sq {
+                        match ops[*i].2 {
+                            Some(val) => { v.set(ops[*i].1, val); model.insert(key(ops[*i].1), val.to_vec()); }
+                            None => { v.remove(ops[*i].1); model.remove(&key(ops[*i].1)); }
+                        }
+                    }
+                    for k in [&b"k"[..], b"j"] {
+                        if v.get(k) != model.get(&key(k)).cloned() {
+                            problems.push(format!("get({}) through the same view = {:?}", show(k), v.get(k).map(|x| show(&x))));
+                        }
+                    }
+                    let scan: Vec<(Vec<u8>, Vec<u8>)> = v.range(None, None, Order::Ascending).collect();
+                    let want: Vec<(Vec<u8>, Vec<u8>)> = ns_view(&model, &prefix).into_iter().collect();
+                    if scan != want {
+                        problems.push(format!("scan through the same view lists {} entries, the window has {}", scan.len(), want.len()));
+                    }
+                    problems
+                });
+                match r {
+                    Ok(mut p) => {
+                        if app.storage().data != model {
+                            p.push("the raw store differs from the window model".into());
+                        }
+                        if !p.is_empty() {
+                            ctx.violation("c07:one-view-object:differs-from-window", json!({"case": case, "differences": p}));
+                        }
+                    }
+                    Err(p) => ctx.violation("c07:one-view-object:panic", json!({"case": case, "panic": p})),
+                }
+            }
+        }
+    }
+    n
+}
+
 pub fn run_c07(ctx: &Ctx) -> i32 {
     let all_paths = paths(ctx.tier);
     let sampler = Sampler::new(6, ctx.seed);
@@ -1381,13 +1455,15 @@ pub fn run_c07(ctx: &Ctx) -> i32 {
     evals.fetch_add(long_checks, Relaxed);
     let empty_value_checks = empty_value_stage(ctx, &all_paths);
     evals.fetch_add(empty_value_checks, Relaxed);
+    let reused_view_checks = reused_view_stage(ctx, &all_paths);
+    evals.fetch_add(reused_view_checks, Relaxed);
     let coverage = json!({
         "states": states.load(Relaxed),
         "transitions": transitions.load(Relaxed),
         "traces_validated_against_impl": states.load(Relaxed),
         "evaluations": evals.load(Relaxed),
         "distinct_nontrivial": distinct.len(),
-        "long_segment_checks": long_checks, "empty_value_checks": empty_value_checks,
+        "long_segment_checks": long_checks, "empty_value_checks": empty_value_checks, "one_view_object_checks": reused_view_checks,
         "rule": "states = (namespace path, raw base content, write sequence) cases run through App::prefixed_*storage* views over a raw store; evaluations = individual get/range/raw-diff comparisons against the prefix-filter model; distinct_nontrivial = distinct range results",
         "exhaustive": true,
         "paths": all_paths.len(),
